@@ -1,4 +1,4 @@
-(* C10 model, part 5: stats1 as a whole (pkg/transformers/stats1.go after fix: 354e61d24 and fix: 06ddd9e93):
+(* C10 model, part 5: stats1 as a whole (pkg/transformers/stats1.go after fix: df62dcee7 and fix: 06ddd9e93):
    - names given twice in -a / -f are kept once (NewTransformerStats1: stats1UniqueNames),
    - value fields by name (-f) or by regex (--fr, inverted --fx), group-by fields by name (-g) or by regex
      (--gr, inverted --gx): the matched field NAMES are part of the grouping key (name=value joined with ","),
